@@ -1,5 +1,8 @@
 (* C06/C07 model driver.  Input lines (see harness/c06/main.go):
      <id> D <codec> <hex>            decode          -> <id> ok <hex> | <id> err | <id> any
+     <id> DH <lzw0|lzw1> <hex>       decode          -> <id> okh <length> <fnv1a-64> | <id> err
+     <id> S <lzw0|lzw1> <hex>        decode with the reader's staging buffer alongside
+                                     -> <id> stage <ok> okh <length> <digest> | <id> stage <ok> err ; <id>.hw <high-water mark>
      <id> E <codec> <hex> [<tags>]   encode          -> <id> enc <hex>
        codec: ahx | a85 | rl | lzw0 | lzw1 | png:<colors>:<bpc>:<columns> | tiff:<colors>:<bpc>:<columns>
               | g3:<cols>:<eol>:<align>:<blackis1>:<ignore_eob>:<maxrows>   (CCITTFax, K = 0)
@@ -134,6 +137,22 @@ let decode id codec data =
   | s when starts_with "g4:" s -> show_res id (CCITT2D.g4_dec (g4_params s) data)
   | _ -> Printf.printf "%s badcodec\n" id
 
+(* length and FNV-1a (64 bit) digest of a decoded result: for megabyte outputs *)
+let digest (r : Bytes.bytes Res.res) : string =
+  match r with
+  | Res.Ok out ->
+    let h = ref 0xcbf29ce484222325L and n = ref 0 in
+    Stdlib.List.iter (fun x ->
+      h := Int64.mul (Int64.logxor !h (Int64.of_int (int_of_n x land 255))) 0x100000001b3L; incr n) out;
+    Printf.sprintf "okh %d %016Lx" !n !h
+  | Res.Err _ -> "err"
+
+let lzw_decode codec data =
+  match codec with
+  | "lzw0" -> LZW.lzw_dec false data
+  | "lzw1" -> LZW.lzw_dec true data
+  | _ -> failwith "bad codec"
+
 let encode id codec data tags =
   let out =
     match codec with
@@ -162,6 +181,12 @@ let () =
     try
       match words line with
       | [id; "D"; codec; data] -> decode id codec (bytes_of_hex data)
+      | [id; "DH"; codec; data] -> Printf.printf "%s %s\n" id (digest (lzw_decode codec (bytes_of_hex data)))
+      | [id; "S"; codec; data] ->
+        (* LZW reader: the output staging buffer alongside the decoder (LZWStage.v) *)
+        let (sg, r) = LZWStage.lzw_stage_dec (codec = "lzw1") (bytes_of_hex data) in
+        Printf.printf "%s stage %s %s\n" id (sb sg.LZWStage.sg_ok) (digest r);
+        Printf.printf "%s.hw %d\n" id (int_of_n sg.LZWStage.sg_hw)
       | [id; "E"; codec; data] -> encode id codec (bytes_of_hex data) []
       | [id; "E"; codec; data; tags] -> encode id codec (bytes_of_hex data) (bytes_of_hex tags)
       | [id; "PF"; v; p; c; b; n] ->
